@@ -124,6 +124,59 @@ pub fn any_numeral(rng: &mut Rng) -> String {
     }
 }
 
+/// Statement and command forms of real Applesoft (and of neighbouring dialects) that the pinned dialect
+/// does not have, or has only in part: what the next pull request is most likely to add. On the pinned
+/// tree most of them are syntax errors or unknown identifiers — which is exactly what the "never
+/// crashes" checks need to keep being true once they start to mean something. `{n}` `{m}` are replaced
+/// by numerals (boundary values included), `{v}` by an identifier.
+const FOREIGN_FORMS: &[&str] = &[
+    "LIST {n}", "LIST {n}-{m}", "LIST {n} - {m}", "LIST -{n}", "LIST {n}-", "LIST {n},{m}", "LIST ,{n}", "LIST {v}",
+    "RUN {n}", "RUN {v}", "CONT {n}", "NEW {n}", "DEL {n},{m}", "DEL {n}", "TRACE {n}", "NOTRACE {n}", "STATS {n}", "INTERNALS {n}",
+    "INPUT {v}, {v}", "INPUT {v}, {v}, {v}$", "INPUT \"HOW MANY\"; {v}", "INPUT \"\"; {v}, {v}", "INPUT {v}$, {v}$, {v}$", "INPUT", "INPUT ,", "INPUT {v},",
+    "GET {v}$", "GET {v}", "ON {v} GOTO {n}, {m}", "ON {n} GOSUB {n}, {m}", "ON {v} GOTO", "POP", "CLEAR", "HOME", "TEXT",
+    "HTAB {n}", "VTAB {n}", "POKE {n}, {m}", "CALL {n}", "CALL -{n}", "PR#{n}", "IN#{n}", "SPEED = {n}", "HIMEM: {n}", "LOMEM: {n}",
+    "ONERR GOTO {n}", "RESUME", "WAIT {n}, {m}", "& {v}", "PRINT PEEK({n})", "PRINT FRE({n})", "PRINT POS({n})", "PRINT USR({n})",
+    "PRINT TAB({n}); {v}", "PRINT SPC({n}); {v}", "PRINT LEN({v}$)", "PRINT LEFT$({v}$, {n})", "PRINT RIGHT$({v}$, {n})",
+    "PRINT MID$({v}$, {n}, {m})", "PRINT MID$({v}$, {n})", "PRINT STR$({n})", "PRINT VAL({v}$)", "PRINT VAL(\"{n}\")", "PRINT CHR$({n})",
+    "PRINT ASC({v}$)", "PRINT ASC(\"\")", "PRINT SQR({n})", "PRINT SQR(-{n})", "PRINT SIN({n})", "PRINT COS({n})", "PRINT TAN({n})",
+    "PRINT ATN({n})", "PRINT LOG({n})", "PRINT LOG(0)", "PRINT EXP({n})", "PRINT SGN({n})", "PRINT {n}E{m}", "PRINT {n}E-{m}", "PRINT {n}E{m}E5",
+    "PRINT .{n}e{m}", "PRINT {n} MOD {m}", "PRINT {n} \\ {m}", "{v} = {n}E{m}", "DIM {v}", "DIM {v}, {v}({n})", "DIM {v}({n}), {v}$({m})",
+    "NEXT", "NEXT {v}, {v}", "FOR {v} = {n} TO {m} : NEXT", "READ", "RESTORE {n}", "RETURN {n}", "GOTO {v}", "GOSUB {v}", "STOP {n}", "END {n}",
+    "DEF FN {v}({v}, {v}) = {v}", "DEF FN {v}() = {n}", "DEF {v}({v}) = {n}", "LET {v} = {n}", "LET {v}$ = \"x\"", "{v}% = {n}", "PRINT {v}%",
+    "IF {v} THEN", "IF {v} GOTO {n}", "IF {v} THEN {n} ELSE {m}", "IF {v} THEN ELSE", "PRINT {v};{v}", "PRINT ;", "PRINT ,", "? {v}", "?",
+    "' {v}", "REM", "DATA", "DATA ,", "DATA {n}E{m}, -{n}, +{n}", "RANDOMIZE {n}", "RANDOMIZE", "PRINT RND", "PRINT RND()", "PRINT RND({n}, {m})",
+    "PRINT INT()", "PRINT ABS", "PRINT NOT", "PRINT -", "PRINT {n} {m}", "SAVE {v}", "LOAD {v}", "CATALOG", "EXIT", "QUIT", "BYE", "HELP",
+];
+
+pub fn foreign_form(rng: &mut Rng) -> String {
+    let form = rng.pick(FOREIGN_FORMS);
+    let mut out = String::new();
+    let mut rest = form;
+    while let Some(i) = rest.find('{') {
+        out.push_str(&rest[..i]);
+        let key = &rest[i..i + 3];
+        match key {
+            "{v}" => out.push_str(rng.pick(&["A", "B", "I", "X", "Q", "Z9", "E5", "A$"]).trim_end_matches('$')),
+            _ => {
+                let n = match rng.below(8) {
+                    0 => rng.pick(BOUNDARY_NUMS).to_string(),
+                    1 => "0".to_string(),
+                    2 => format!("{}", rng.pick(&[255u64, 256, 32767, 32768, 65535, 65536, 4294967295, 4294967296])),
+                    3 => "18446744073709551615".to_string(),
+                    _ => format!("{}", rng.below(60)),
+                };
+                out.push_str(n.trim_start_matches('-'));
+            }
+        }
+        rest = &rest[i + 3..];
+    }
+    out.push_str(rest);
+    if rng.chance(1, 4) {
+        out = out.to_lowercase();
+    }
+    out
+}
+
 pub fn token_soup(rng: &mut Rng, max_tokens: usize) -> String {
     let n = 1 + rng.usize(max_tokens);
     let mut out = String::new();
